@@ -169,6 +169,11 @@ class FileIndex:
         return "".join(lines[node.lineno - 1: node.end_lineno])
 
 
+_FILES = {}   # parsed once per process (every check is a fresh process reading the current working tree)
+_REAL = {}
+_INREPO = {}
+
+
 class Interp:
     def __init__(self, repo=None):
         self.repo = os.path.realpath(repo or REPO)
@@ -185,17 +190,22 @@ class Interp:
     def in_repo(self, filename):
         if not filename:
             return False
-        try:
-            fn = os.path.realpath(filename)
-        except Exception:
-            return False
-        return fn.startswith(self.repo + os.sep) and "/tests/" not in fn
+        r = _INREPO.get(filename)
+        if r is None:
+            try:
+                fn = os.path.realpath(filename)
+            except Exception:
+                return False
+            r = _INREPO[filename] = fn.startswith(self.repo + os.sep) and "/tests/" not in fn
+        return r
 
     def index(self, filename):
-        fn = os.path.realpath(filename)
-        if fn not in self.files:
-            self.files[fn] = FileIndex(fn)
-        return self.files[fn]
+        fn = _REAL.get(filename)
+        if fn is None:
+            fn = _REAL[filename] = os.path.realpath(filename)
+        if fn not in _FILES:
+            _FILES[fn] = FileIndex(fn)
+        return _FILES[fn]
 
     def node_of(self, func):
         """AST node of a native repo function object (or None)"""
@@ -1144,6 +1154,13 @@ def _contains_repo_or_sym(d):
 
 
 def _has_yield(node):
+    r = getattr(node, "_hasyield", None)
+    if r is None:
+        r = node._hasyield = _has_yield0(node)
+    return r
+
+
+def _has_yield0(node):
     for n in ast.walk(node):
         if isinstance(n, (ast.Yield, ast.YieldFrom)):
             # make sure it belongs to this function and not to a nested one
